@@ -2,7 +2,8 @@
 //
 // input : [mode [[name value] ...]]
 //   mode   0 = "GET /p" without body, 1 = "POST /p" followed by the 3-byte body "abc", 2 = "POST /p" followed by the
-//          chunked body "3\r\nabc\r\n0\r\n\r\n", 3 = "GET /p" followed by the chunked body "0\r\n\r\n"
+//          chunked body "3\r\nabc\r\n0\r\n\r\n", 3 = "GET /p" followed by the chunked body "0\r\n\r\n",
+//          4 = "GET /p HTTP/1.0" without body (all other modes are HTTP/1.1)
 //   pairs  the header lines the client sends after "Host: example.org", verbatim "name: value\r\n", in this order.
 //          The generator (not impl) is responsible for putting the framing headers that match the mode into the list.
 // output: [line ...]  the header lines (without CRLF, without the request line) of the request the fake backend received
@@ -43,11 +44,13 @@ func impl(in hv.Val) hv.Val {
 		return hv.Err(0)
 	}
 	mode := int(hv.AsInt(l[0]))
-	if mode < 0 || mode > 3 {
+	if mode < 0 || mode > 4 {
 		return hv.Err(0)
 	}
 	var sb bytes.Buffer
-	if mode == 0 || mode == 3 {
+	if mode == 4 {
+		sb.WriteString("GET /p HTTP/1.0\r\nHost: example.org\r\n")
+	} else if mode == 0 || mode == 3 {
 		sb.WriteString("GET /p HTTP/1.1\r\nHost: example.org\r\n")
 	} else {
 		sb.WriteString("POST /p HTTP/1.1\r\nHost: example.org\r\n")
@@ -106,7 +109,7 @@ var hopNames = []string{"Connection", "connection", "CONNECTION", "Keep-Alive", 
 	"Proxy-Authorization", "proxy-authorization", "TE", "Te", "te", "Trailer", "trailer", "Trailers", "Upgrade", "upgrade",
 	"Proxy-Connection"}
 var plainNames = []string{"X-Foo", "x-foo", "X-Bar", "Accept", "Accept-Encoding", "User-Agent", "Cookie", "X-Custom-1",
-	"Content-Type", "x_under", "Keep-Alive-X", "Tea", "Connection-Id", "Via", "Cache-Control"}
+	"Content-Type", "x_under", "Keep-Alive-X", "Tea", "Connection-Id", "Via", "Cache-Control", "Pragma", "pragma"}
 var connTokens = []string{"close", "keep-alive", "Keep-Alive", "x-foo", "X-Foo", "X-Bar", "x-bar", "te", "TE", "upgrade", "cookie",
 	"Cookie", "x-custom-1", "trailer", "accept", "", "user-agent", "x_under", "content-type", "proxy-connection"}
 var plainVals = []string{"1", "a", "gzip", "abc def", "", "x, y", "trailers", "close", "timeout=5, max=100"}
@@ -136,6 +139,8 @@ func valueFor(r *hv.Rng, name string) string {
 		return r.Pick([]string{"X-Foo", "Expires", "x-bar, X-Foo", ""})
 	case "upgrade":
 		return r.Pick([]string{"h2c", "websocket", "HTTP/2.0, SHTTP/1.3", ""})
+	case "pragma":
+		return r.Pick([]string{"no-cache", "no-cache", "No-Cache", "x", ""})
 	case "proxy-authenticate":
 		return r.Pick([]string{"Basic realm=x", ""})
 	case "proxy-authorization":
@@ -147,7 +152,7 @@ func valueFor(r *hv.Rng, name string) string {
 // isWebsocketUpgrade mirrors bfe_websocket.CheckUpgradeWebSocket on the generated list (first value of each field):
 // such requests are upgrade requests, which the property excludes.
 func isWebsocketUpgrade(mode int, hs [][2]string) bool {
-	if mode != 0 && mode != 3 {
+	if mode != 0 && mode != 3 && mode != 4 {
 		return false
 	}
 	first := func(n string) (string, bool) {
@@ -172,6 +177,8 @@ func gen(r *hv.Rng, i int, tier string) (string, hv.Val) {
 		mode = 2
 	case 4:
 		mode = 3
+	case 5:
+		mode = 4
 	}
 	class := "mix"
 	var hs [][2]string
@@ -230,7 +237,7 @@ func gen(r *hv.Rng, i int, tier string) (string, hv.Val) {
 		if r.Chance(1, 4) {
 			ins("Content-Length", "3") // chunked trumps Content-Length
 		}
-	case 0:
+	case 0, 4:
 		if r.Chance(1, 8) {
 			ins("Transfer-Encoding", "identity")
 		}
